@@ -408,6 +408,16 @@ theorem header_read_on_hotcold_eq_cold (s : HC) (t : BlobType) (id : Name) (off 
   simp [HotCold.readPartial, singleReadPartial, usesHot, headerReadCacheable]
 
 open Rustic.HotCold Rustic.Backends in
+/-- … and it is the very ranged read `fromFile` (the model of `PackHeader::from_file`) performs on the pack file of the cold
+store (`Pack.readPartial file`), so `parse_build` / `index_rebuildable` speak about header reads on hot/cold repositories too. -/
+theorem header_read_on_hotcold_reads_cold_file (s : HC) (t : BlobType) (id : Name) (file : Rustic.Pack.Bytes) (off len : Nat)
+    (hcold : s.cold (FileType.pack, id) = some file) :
+    HotCold.readPartial s FileType.pack id (headerReadCacheable t) off len =
+      (match Rustic.Pack.readPartial file off len with | some d => Res.ok d | none => Res.err) := by
+  simp only [HotCold.readPartial, usesHot, headerReadCacheable, hcold, slice, Rustic.Pack.readPartial]
+  by_cases h : off + len ≤ List.length file <;> simp [h]
+
+open Rustic.HotCold Rustic.Backends in
 /-- the same at the level of the command: let `rd hot` be the header read (`from_file`) served by the hot (`true`) / cold
 (`false`) part; `repair_index` on hot/cold — every read routed by `usesHot` with the flag `from_file` passes — computes the
 index files `repair_index` computes on the cold store alone, whatever type `tpeOf` the packs have. -/
